@@ -67,6 +67,33 @@ CHECKS = {
         assumptions=['Go slices: a write through one slice is visible through every slice sharing its backing array; append growth policy is not modelled '
                      '(fresh arrays are compared by identity and contents, not capacity)'],
     ),
+    'C05': dict(
+        spec=['FpVerif.Spec.C05'],
+        harnesses=[H('promise', 'oracle_promise', 4000, 400000)],
+        level='proof',
+        modelled='future.go: Promise (Complete/Success/Failure, tryCompleteAndGetListeners, dispatchOrAddCallback, '
+                 'IsCompleted, Value), Future.OnComplete/OnSuccess/OnFailure/Foreach, goExecutor; '
+                 'internal/atomic/atomic.go (Get/Load/CompareAndSwap as atomic steps with pointer identity); '
+                 'Go slice append (len/cap/backing array) for the callback list',
+        assumptions=['one atomic block = the code between two yield hooks (build tag verif); sync/atomic pointer '
+                     'operations are sequentially consistent and a held *ValuePtr is never recycled (no ABA)',
+                     'Go grows 8-byte-element slices by doubling below 256 elements (only matters for the as-is model)',
+                     'user callbacks only record their invocation; tasks handed to the executor run inline in the '
+                     'spawning logical thread (the order in which spawned tasks run is not part of the property)',
+                     'the stress part (real goroutines, no hooks) is not reproducible from the seed'],
+    ),
+    'C19': dict(
+        spec=['FpVerif.Spec.C19'],
+        harnesses=[H('cow', 'oracle_cow', 4000, 400000)],
+        level='proof',
+        modelled='mutable/copyonwrite.go: load, copyOnWrite, Get, Size, Iterator, Updated, Removed, UpdatedWith, '
+                 'ComputeIf, ComputeIfAbsent; map.go UnsafeGoMap as an immutable association list',
+        assumptions=['sync.Mutex gives mutual exclusion; atomic.Value Load/Store are sequentially consistent',
+                     'user callbacks (remap, pred, f) are pure and total; published Go maps are never mutated '
+                     '(checked by the correspondence run, not by the proof)',
+                     'keys are comparable values (the model uses natural numbers)',
+                     'the stress part (real goroutines, no hooks) is not reproducible from the seed'],
+    ),
     'C06': dict(
         spec=['FpVerif.Spec.C06', 'FpVerif.Spec.C06Sound'],
         harnesses=[H('future', 'oracle_future', 3000, 150000, spec_level=True)],
@@ -228,7 +255,7 @@ for _k, _v in CHECKS_TC.items():
         _h['spec_level'] = True
 CHECKS.update(CHECKS_TC)
 
-HOOK_COMMITS = ['068ea8a']
+HOOK_COMMITS = ['068ea8a', '2723e24']
 
 NOT_APPLICABLE = {
     'C13': "byte-level reproducibility of three generator executables over a file tree: no executable Lean model short of a model of "
